@@ -64,7 +64,12 @@ def build(d):
         return {build(k): build(v) for k, v in d['v']}
     if t == 'tok':
         return TOK[d['k']][d['id']]
+    if t == 'inst':                      # an instance of the nested class of the current history
+        return NESTED_INSTANCES[d['i']]
     raise ValueError(t)
+
+
+NESTED_INSTANCES = []
 
 
 def located(lv, table):
@@ -215,6 +220,8 @@ def class_source(c, ns, table):
     deco = None
     if kind != 'env':
         opts = ['kw_only=%r' % bool(c.get('kw_only', True))]
+        if c.get('eq') is False:
+            opts.append('eq=False')
         if c.get('frozen'):
             opts.append('frozen=True')
         if c.get('slots'):
@@ -412,7 +419,134 @@ def run_case(c):
     return out
 
 
+def new_ns():
+    return {'dataclasses': dataclasses, 'Annotated': Annotated, 'Any': Any, 'JSONWizard': JSONWizard,
+            'EnvWizard': EnvWizard, 'SkipIf': SkipIf, 'skip_if_field': skip_if_field, 'json_field': json_field,
+            'json_key': json_key, 'V1Alias': V1Alias, 'ClassVar': ClassVar, 'InitVar': InitVar, '_PI': {},
+            '__name__': 'c11_gen'}
+
+
+def conds_of(c, table):
+    conds = {'own': {}, 'skip_if': None, 'sdi': None}
+    for f in c['fields']:
+        if f.get('cond') is not None:
+            k = f['cond']
+            conds['own'][f['name']] = (k['op'], None if k['op'] in ('+', '!') else located(k['val'], table))
+    for mk, ck in (('skip_if', 'skip_if'), ('skip_defaults_if', 'sdi')):
+        k = c['meta'].get(mk)
+        if k is not None:
+            conds[ck] = (k['op'], None if k['op'] in ('+', '!') else located(k['val'], table))
+    return conds
+
+
+def make_instance(c, cls, iv, ns, table):
+    kwargs = {f['name']: located(lv, table) for f, lv in zip(c['fields'], iv)
+              if f.get('init', True) and not lv.get('omit')}
+    ns['_PI'].clear()
+    ns['_PI'].update({f['name']: located(lv, table) for f, lv in zip(c['fields'], iv)
+                      if not f.get('init', True) and not lv.get('omit')})
+    inst = cls(**kwargs)
+    vals = [getattr(inst, f['name']) for f in c['fields']]
+    for lv, v in zip(iv, vals):
+        table[lv['l']] = v
+    return inst, vals
+
+
+def dump_call(c, inst, E, s):
+    kw = {}
+    if E is not None:
+        kw['exclude'] = list(E)
+    if s is not None:
+        kw['skip_defaults'] = bool(s)
+    try:
+        d = asdict(inst, **kw) if c['wizard'] == 'plain' else inst.to_dict(**kw)
+        return d, {'keys': list(d.keys()), 'vals': {k: canon(v) for k, v in d.items()}}
+    except BaseException as e:  # noqa
+        return None, {'err': type(e).__name__, 'msg': str(e)[:160]}
+
+
+def run_history(h):
+    """A nested dataclass and an enclosing class dumped in a given order in THIS interpreter.
+    Returns, per step, the observations in the shape run_case produces (pseudo-cases):
+    'inner' = the nested class dumped alone (its own rules only), 'outer' = the enclosing class,
+    'nested' = the nested instances as they appear inside the enclosing class's dumps (the
+    enclosing Meta cascades)."""
+    table = {}
+    ns = new_ns()
+    ci, co = h['inner'], h['outer']
+    out = {'steps': []}
+    try:
+        iname, isrc, imeta = class_source(ci, ns, table)
+        exec(isrc, ns)
+        icls = ns[iname]
+        inner_insts = []
+        for iv in ci['instances']:
+            inner_insts.append(make_instance(ci, icls, iv, ns, table))
+        NESTED_INSTANCES[:] = [x for x, _v in inner_insts]
+        oname, osrc, ometa = class_source(co, ns, table)
+        exec(osrc, ns)
+        ocls = ns[oname]
+        if co['wizard'] == 'plain' and ometa:
+            DumpMeta(**ometa).bind_to(ocls)
+        outer_insts = [make_instance(co, ocls, iv, ns, table) for iv in co['instances']]
+        out['class_source'] = isrc + osrc
+    except BaseException as e:  # noqa
+        return {'setup_err': err_info(e)}
+    iconds, idflt = conds_of(ci, table), {f['name']: located(f['default'], table) for f in ci['fields'] if f['default'] is not None}
+    oconds, odflt = conds_of(co, table), {f['name']: located(f['default'], table) for f in co['fields'] if f['default'] is not None}
+    # the nested class reached through the enclosing class: its own fields and conditions, the enclosing Meta
+    cn = dict(ci, meta=co['meta'])
+    nconds = dict(iconds, skip_if=oconds['skip_if'], sdi=oconds['sdi'])
+    nested_keys = {f['key'] for f in co['fields'] if f.get('nested')}
+    for step in h['order']:
+        if step == 'inner':
+            insts = []
+            for (inst, vals) in inner_insts:
+                rec = {'calls': []}
+                for E in ci['Es']:
+                    for s_ in ci['ss']:
+                        _d, got = dump_call(ci, inst, E, s_)
+                        rec['calls'].append({'got': got, 'exp': reference(ci, vals, idflt, iconds, E, s_), 'evaluate_mismatch': []})
+                insts.append(rec)
+            out['steps'].append({'kind': 'inner', 'instances': insts})
+        else:
+            insts, nested_obs, inconsistent = [], {}, []
+            for (inst, vals) in outer_insts:
+                rec = {'calls': []}
+                for E in co['Es']:
+                    for s_ in co['ss']:
+                        d, got = dump_call(co, inst, E, s_)
+                        rec['calls'].append({'got': got, 'exp': reference(co, vals, odflt, oconds, E, s_), 'evaluate_mismatch': []})
+                        if d is None:
+                            continue
+                        for f, v in zip(co['fields'], vals):
+                            if not f.get('nested') or f['key'] not in d:
+                                continue
+                            pairs = [(v, d[f['key']])] if not isinstance(v, list) else list(zip(v, d[f['key']]))
+                            for obj, nd in pairs:
+                                k = next(i for i, x in enumerate(NESTED_INSTANCES) if x is obj)
+                                g = {'keys': list(nd.keys()), 'vals': {kk: canon(vv) for kk, vv in nd.items()}} \
+                                    if isinstance(nd, dict) else {'err': 'NotADict', 'msg': repr(nd)[:100]}
+                                if k in nested_obs and nested_obs[k]['got'] != g:
+                                    inconsistent.append(k)
+                                nested_obs.setdefault(k, {'got': g, 'exp': reference(cn, inner_insts[k][1], idflt, nconds, None, None),
+                                                          'evaluate_mismatch': []})
+                insts.append(rec)
+            out['steps'].append({'kind': 'outer', 'instances': insts,
+                                 'nested': {str(k): v for k, v in nested_obs.items()}, 'inconsistent': inconsistent})
+    out['ids'] = id_classes({k: v for k, v in table.items()})
+    return out
+
+
 def handler(p):
+    if p.get('histories') is not None:
+        res = []
+        for h in p['histories']:
+            try:
+                res.append(run_history(h))
+            except BaseException as e:  # noqa
+                res.append({'runner_err': err_info(e)})
+        return {'histories': res}
     res = {'sem': h_sem(p['sem']) if p.get('sem') else None, 'cases': []}
     for c in p.get('cases', []):
         try:
